@@ -365,6 +365,55 @@ func runLoad(seed uint64, n, shards int, out, tmp, backend string, maxcap, maxop
 		}
 	}
 	s.Extra["header_mutants"] = nm
+	// crafted: images whose object IDs do not follow the slots (IDs rewritten in images the
+	// library made), modified on one handle: add, delete the object of the first slot, add, add
+	for v := 0; v < 4; v++ {
+		r := root.Fork()
+		var b sif.Buffer
+		mk := func(content string, opts ...sif.DescriptorInputOpt) sif.DescriptorInput {
+			di, err := sif.NewDescriptorInput(sif.DataGeneric, strings.NewReader(content), opts...)
+			if err != nil {
+				panic(err)
+			}
+			return di
+		}
+		dis := []sif.DescriptorInput{mk("first"), mk(string(h.GenContent(r, 20+r.Intn(60))), sif.OptGroupID(2))}
+		if v%2 == 1 {
+			dis = append(dis, mk("third", sif.OptNoGroup()))
+		}
+		if _, err := sif.CreateContainer(&b, sif.OptCreateDeterministic(), sif.OptCreateWithDescriptorCapacity(int64(len(dis)+3)),
+			sif.OptCreateWithDescriptors(dis...), sif.OptCreateWithCloseOnUnload(false)); err != nil {
+			panic(err)
+		}
+		img := append([]byte(nil), b.Bytes()...)
+		si, _ := h.DecodeImage(img)
+		newIDs := [][]uint32{{7, 2}, {5, 9, 2}, {3, 1}, {2, 7, 4}}[v]
+		for j, nid := range newIDs {
+			if j < len(dis) {
+				o := int(si.H.DescOff) + j*h.DescSize + 5
+				img[o], img[o+1], img[o+2], img[o+3] = byte(nid), 0, 0, 0
+			}
+		}
+		small := func() h.DInput {
+			return h.DInput{Type: h.DataGeneric, Content: h.GenContent(r, 1+r.Intn(40)), FailAfter: -1, GroupOpt: r.Intn(2)}
+		}
+		det := h.TOpt{Kind: h.TDeterministic}
+		id++
+		c := h.Case{ID: id, Backend: be(v), LoadBytes: img, ForeignIDs: true}
+		c.InitQueries = []h.Query{{Kind: "many"}}
+		for _, op := range []h.Op{
+			{Kind: h.OpAdd, DI: small(), T: det},
+			{Kind: h.OpDelete, ByID: true, Sel: h.Selector{Kind: h.SID, N: int64(newIDs[0])}, T: det},
+			{Kind: h.OpAdd, DI: small(), T: det},
+			{Kind: h.OpAdd, DI: small(), T: det},
+			{Kind: h.OpAdd, DI: small(), T: det},
+			{Kind: h.OpReload},
+			{Kind: h.OpAdd, DI: small(), T: det},
+		} {
+			c.Steps = append(c.Steps, h.Step{Op: op, Queries: []h.Query{{Kind: "many"}}})
+		}
+		run(c)
+	}
 	if corpus > 0 {
 		names, imgs := h.CorpusImages("/repo")
 		k := 0
@@ -533,6 +582,16 @@ func runLockstep(seed uint64, n, shards int, out, tmp string, p h.GenParams) sum
 			if string(x.Store) != string(y.Store) {
 				report(j+1, fmt.Sprintf("after %s the contents differ: buffer %d bytes, file %d bytes, first difference at %d", a.Steps[j].Op.KindName(), len(x.Store), len(y.Store), firstDiffBytes(x.Store, y.Store)))
 				break
+			}
+			// the read-only questions asked after the step are answered alike
+			for qi := range a.Steps[j].Queries {
+				if qi < len(b.Steps[j].Queries) {
+					qa, qb := a.Steps[j].Queries[qi], b.Steps[j].Queries[qi]
+					if qa.Err != qb.Err || fmt.Sprint(qa.IDs) != fmt.Sprint(qb.IDs) || string(qa.Bytes) != string(qb.Bytes) {
+						report(j+1, fmt.Sprintf("query %s after %s: buffer answers (%q, %v, %d bytes), file (%q, %v, %d bytes)", qa.Coq(), a.Steps[j].Op.KindName(), qa.Err, qa.IDs, len(qa.Bytes), qb.Err, qb.IDs, len(qb.Bytes)))
+						break
+					}
+				}
 			}
 		}
 		if len(s.Samples) < 3 {
